@@ -81,7 +81,9 @@ def main():
             if time.time() > t_end and rec['cases'] >= 20:
                 break
             try:
-                status, results, used = run_concrete(u, None, Gen(seed * 1000003 + i))
+                g = Gen(seed * 1000003 + i)
+                pre = u.twin(g) if getattr(u, 'twin', None) else None      # unit-supplied construction of inputs that satisfy its assumptions
+                status, results, used = run_concrete(u, pre, g)
             except Exception:
                 out['errors'].append({'unit': name, 'case': i, 'trace': traceback.format_exc()})
                 break
